@@ -3,8 +3,15 @@ Scenario = list of operations (tokens, all numbers hex):
   :e <count> <f> <k> (<p> <value>){k} <ret: ~ | value> <ignoreOtherParameters 0|1>     expectNCalls(count,"f<f>").withParameter("p<p>",v)...
   :c <f> <k> (<p> <value>){k} <want 0|1>        actualCall("f<f>").withParameter(...)...; want: hasReturnValue()? returnValue()
   :chk  :clr  :strict  :ign                      checkExpectations / clear / strictOrder / ignoreOtherCalls
+  :E <count> <f> <k> (<p> <value>){k} <ko> (<o> $bytes){ko} <obj: ~ | addr> <ret: ~ | value> <ign 0|1>
+                                                 ... .withOutputParameterReturning("o<o>", bytes, len)... [.onObject(addr)]
+  :C <f> <k> item{k} <want 0|1>                  actualCall("f<f>") followed by the items in this order
+        item ::= :in <p> <value> | :out <o> $bytes(8: the caller's buffer before the call) | :obj <addr>
+  :en  :dis  :left                               enable / disable / expectedCallsLeft (answer is observed)
+  :s <n> <op>                                    the operation is made on the named scope mock("s<n>") instead of mock()
   value ::= :b 0|1 | :i <ty 0..5> <z> | :s $bytes | :p <addr>
-Observation: <fail: ~ | opindex :kind a b  nUnf (exp act)*  nFul (exp act)*>  nRets (<:n | value>)*
+Observation: <fail: ~ | opindex :kind a b  nUnf (exp act)*  nFul (exp act)*>  nRets (<:n | value>)*  nOuts ($bytes)*  nLeft (0|1)*
+(output buffers of every completed actual call in the order they were passed).
 The scenario stops at its first failure (the reporter leaves the test); mock().clear() afterwards."""
 import itertools
 from vlib import tz, tb
@@ -17,9 +24,19 @@ RULE = ("expectation sets of 1-6 expectations over 1-3 function names, 0-3 param
         "plus one mutation at each position (drop, duplicate, extra call to a known/unknown function, wrong value, wrong/extra parameter "
         "name, missing parameter, adjacent swap); strict order on/off, ignoreOtherCalls, intermediate checkExpectations/clear; separate "
         "streams with ignoreOtherParameters, duplicate parameter names and deliberately ambiguous sets (model = implementation only). "
+        "Objects x outputs: expectations on one function that differ only by the object (2-3 objects), each with its own output bytes "
+        "(1-8 bytes, 1-2 output parameters) and return value, optionally with input parameters; every actual call passes object, outputs "
+        "and inputs in a shuffled order and one call in every permutation of its items; mutations: missing object, unexpected object, "
+        "object of a used-up expectation, wrong/extra/missing output parameter, object passed twice; mixed sets (some expectations "
+        "without object) as model = implementation only. Scopes: 2-4 of mock() and mock(\"s1..3\") with their own expectation sets "
+        "(same function names reused across scopes), expectations and calls of the scopes interleaved, creation order varied, one "
+        "mutation in one scope (so that exactly one scope, first / middle / last created, deviates), strictOrder / ignoreOtherCalls on "
+        "mock() before and after a scope exists and on single scopes; non-canonical: expectedCallsLeft, scope-level checkExpectations "
+        "and clear, global clear, disable/enable in the middle. "
         "non-trivial = at least one expectation and one actual call")
 ASSUMPTIONS = ["LP64 data model", "function and parameter names are distinct non-empty strings without special characters",
-               "core fragment: no onObject, no output parameters, no custom types, no scopes, mock enabled, tracing off"]
+               "no custom types / comparators / copiers (..OfType), tracing off, scopes one level deep (mock(\"name\"))",
+               "output data of at most 8 bytes into caller buffers of 8 bytes"]
 
 VALUES = [":b 0", ":b 1", ":i 0 1", ":i 1 1", ":i 0 2", ":i 2 -1", ":i 3 ffffffffffffffff", ":i 4 -8000000000000000", ":i 5 2",
           ":s " + tb(b"a"), ":s " + tb(b"b"), ":s " + tb(b""), ":p 1000", ":p 1008", ":i 0 -1"]
@@ -147,9 +164,272 @@ def orders(rng, calls, limit):
     return out
 
 
+OBJS = [0x1000, 0x1008, 0x2000]
+
+
+def outs_tok(outs):
+    return "%x %s" % (len(outs), " ".join("%x %s" % (n, tb(b)) for n, b in outs)) if outs else "0"
+
+
+def expx_tok(e):
+    """(count, f, inputs, outputs [(name, bytes)], object or None, ret or None, ign)"""
+    n, f, ps, outs, obj, ret, ign = e
+    if not outs and obj is None:
+        return exp_tok((n, f, ps, ret, ign))
+    return ":E %x %x %s %s %s %s %x" % (n, f, params_tok(ps), outs_tok(outs), "~" if obj is None else "%x" % obj, ret if ret else "~", 1 if ign else 0)
+
+
+def item_tok(it):
+    if it[0] == "in":
+        return ":in %x %s" % (it[1], it[2])
+    if it[0] == "out":
+        return ":out %x %s" % (it[1], tb(it[2]))
+    return ":obj %x" % it[1]
+
+
+def callx_tok(c):
+    f, its, want = c
+    if all(it[0] == "in" for it in its):
+        return call_tok((f, [(it[1], it[2]) for it in its], want))
+    return ":C %x %x %s %x" % (f, len(its), " ".join(item_tok(it) for it in its), 1 if want else 0) if its else ":C %x 0 %x" % (f, 1 if want else 0)
+
+
+def in_scope(s, tok):
+    return (":s %x " % s + tok) if s else tok
+
+
+def rbytes(rng, n):
+    return bytes(rng.randrange(1, 255) for _ in range(n))
+
+
+def filler(rng):
+    return bytes([rng.choice([0x00, 0x11, 0x5a, 0xee])] * 8)
+
+
+def old_to_x(exps):
+    return [(n, f, ps, [], None, ret, ign) for (n, f, ps, ret, ign) in exps]
+
+
+def gen_obj_exps(rng, nfun, mixed=False):
+    """Per function a family of expectations that differ only by the object, each with distinct output bytes and return value."""
+    exps = []
+    for f in range(nfun):
+        mode = rng.choice(["obj", "obj", "obj", "plain"])
+        base_in = [(n, rng.choice(VALUES)) for n in rng.sample(range(3), rng.choice([0, 0, 1, 2]))]
+        out_names = rng.sample(range(2), rng.choice([1, 1, 2, 0]))
+        objs = rng.sample(OBJS, rng.choice([2, 2, 3])) if mode == "obj" else [None] * rng.choice([1, 2])
+        rets = rng.sample(RETS, len(objs))
+        for i, ob in enumerate(objs):
+            ps = list(base_in)
+            if ps and rng.random() < (0.25 if mode == "obj" else 0.9):
+                j = rng.randrange(len(ps))
+                ps[j] = (ps[j][0], rng.choice(VALUES))
+            outs = [(n, rbytes(rng, rng.choice([1, 2, 4, 4, 8, 3, 0]))) for n in out_names]
+            o = ob
+            if mixed and rng.random() < 0.35:
+                o = None if ob is not None else rng.choice(OBJS)
+            exps.append((rng.choice([1, 1, 1, 2]), f, ps, outs, o, rets[i] if rng.random() < 0.8 else None, False))
+        if rng.random() < 0.25 and exps:   # an identical twin of one of them (same object, other bytes)
+            n, f2, ps, outs, o, ret, ign = rng.choice([e for e in exps if e[1] == f])
+            exps.append((1, f2, list(ps), [(nm, rbytes(rng, max(1, len(b)))) for nm, b in outs], o, rng.choice(RETS), False))
+    rng.shuffle(exps)
+    return exps
+
+
+def matching_callsx(rng, exps, shuffle=True):
+    calls = []
+    for (n, f, ps, outs, obj, ret, ign) in exps:
+        for _ in range(n):
+            its = [("in", p, v) for p, v in ps] + [("out", o, filler(rng)) for o, _ in outs]
+            if obj is not None:
+                its.append(("obj", obj))
+            if shuffle:
+                rng.shuffle(its)
+            calls.append((f, its, rng.random() < 0.6))
+    return calls
+
+
+XMUT = ["drop", "dup", "swap", "extra_unknown", "drop_obj", "wrong_obj", "other_obj", "dup_obj", "add_obj", "extra_out", "wrong_out", "missing_out",
+        "wrong_value", "missing_in", "extra_in", "reorder"]
+
+
+def mutatex(rng, calls, kind, pos):
+    c = [(f, list(its), w) for f, its, w in calls]
+    if not c:
+        return c + ([(7, [], rng.random() < 0.5)] if kind == "extra_unknown" else [])
+    pos = min(pos, len(c) - 1)
+    f, its, w = c[pos]
+    idx = lambda k: [i for i, it in enumerate(its) if it[0] == k]
+    if kind == "drop":
+        del c[pos]
+    elif kind == "dup":
+        c.insert(pos, (f, list(its), w))
+    elif kind == "swap":
+        if pos + 1 < len(c):
+            c[pos], c[pos + 1] = c[pos + 1], c[pos]
+    elif kind == "extra_unknown":
+        c.insert(pos, (7, [("obj", OBJS[0])] if rng.random() < 0.5 else [], rng.random() < 0.5))
+    elif kind == "drop_obj":
+        for i in idx("obj")[:1]:
+            del its[i]
+    elif kind == "wrong_obj":
+        for i in idx("obj")[:1]:
+            its[i] = ("obj", 0x3000)
+    elif kind == "other_obj":
+        for i in idx("obj")[:1]:
+            its[i] = ("obj", rng.choice([o for o in OBJS if o != its[i][1]]))
+    elif kind == "dup_obj":
+        for i in idx("obj")[:1]:
+            its.insert(rng.randrange(len(its) + 1), ("obj", rng.choice(OBJS)))
+    elif kind == "add_obj":
+        if not idx("obj"):
+            its.insert(rng.randrange(len(its) + 1), ("obj", rng.choice(OBJS)))
+    elif kind == "extra_out":
+        its.insert(rng.randrange(len(its) + 1), ("out", rng.choice([2, 3]), filler(rng)))
+    elif kind == "wrong_out":
+        for i in idx("out")[:1]:
+            its[i] = ("out", rng.choice([n for n in range(4) if n != its[i][1]]), its[i][2])
+    elif kind == "missing_out":
+        for i in idx("out")[:1]:
+            del its[i]
+    elif kind == "wrong_value":
+        for i in idx("in")[:1]:
+            its[i] = ("in", its[i][1], rng.choice([v for v in VALUES if v != its[i][2]]))
+    elif kind == "missing_in":
+        for i in idx("in")[:1]:
+            del its[i]
+    elif kind == "extra_in":
+        its.insert(rng.randrange(len(its) + 1), ("in", rng.choice([3, 4]), rng.choice(VALUES)))
+    elif kind == "reorder":
+        rng.shuffle(its)
+    return c
+
+
+def scenx(pre, exps, calls, tail=(":chk",)):
+    return join(list(pre) + [expx_tok(e) for e in exps] + [callx_tok(c) for c in calls] + list(tail))
+
+
+def gen_objects(rng, tier, out):
+    nsets = 70 if tier == "quick" else 2500
+    for k in range(nsets):
+        mixed = (k % 7 == 6)
+        exps = gen_obj_exps(rng, rng.choice([1, 1, 2]), mixed)
+        pre = []
+        if rng.random() < 0.3:
+            pre.append(":strict")
+        if rng.random() < 0.1:
+            pre.append(":ign")
+        for rnd in range(2 if tier == "quick" else 4):
+            base = matching_callsx(rng, exps)
+            rng.shuffle(base)
+            base = base[:6]
+            out.append(scenx(pre, exps, base))
+            # one call in every order of its items (object first, output first, ...)
+            if base:
+                j = rng.randrange(len(base))
+                f, its, w = base[j]
+                perms = list(itertools.permutations(its)) if len(its) <= 3 else [tuple(rng.sample(its, len(its))) for _ in range(6)]
+                for pm in perms:
+                    out.append(scenx(pre, exps, base[:j] + [(f, list(pm), True)] + base[j + 1:]))
+            for pos in range(len(base) + 1):
+                out.append(scenx(pre, exps, mutatex(rng, base, rng.choice(XMUT), pos)))
+        inorder = matching_callsx(rng, exps, shuffle=False)
+        out.append(scenx(pre, exps, inorder))
+        for kind in XMUT:
+            out.append(scenx(pre, exps, mutatex(rng, inorder, kind, rng.randrange(len(inorder) + 1))))
+        if inorder:
+            h = rng.randrange(len(inorder) + 1)
+            out.append(join(pre + [expx_tok(e) for e in exps] + [callx_tok(c) for c in inorder[:h]] + [":left", ":chk"] + [callx_tok(c) for c in inorder[h:]] + [":left", ":chk"]))
+
+
+def interleave(rng, seqs):
+    """Random merge of the sequences that keeps each sequence's own order."""
+    seqs = [list(q) for q in seqs if q]
+    out = []
+    while seqs:
+        q = rng.choice(seqs)
+        out.append(q.pop(0))
+        if not q:
+            seqs.remove(q)
+    return out
+
+
+def gen_scopes(rng, tier, out):
+    nsets = 110 if tier == "quick" else 4000
+    for k in range(nsets):
+        scopes = rng.choice([[0, 1], [1, 2], [0, 1, 2], [1, 2, 3], [2, 1], [0, 2, 1, 3], [1, 2]])
+        cfg = []
+        style = k % 6
+        if style == 1:
+            cfg = [":strict"]
+        elif style == 2:
+            cfg = [":ign"]
+        elif style == 3:     # a scope exists before mock() is configured: ignoreOtherCalls reaches it, strictOrder does not
+            named = [s for s in scopes if s] or [1]
+            rng.shuffle(named)
+            cfg = [in_scope(s0, rng.choice([":strict", ":ign"])) for s0 in named[:rng.choice([1, 2, 2, 3])]]
+            cfg.append(rng.choice([":strict", ":ign", ":ign"]))
+            if rng.random() < 0.4:
+                cfg.append(rng.choice([":strict", ":ign"]))
+        elif style == 4:     # single scopes configured
+            cfg = [in_scope(rng.choice(scopes), rng.choice([":strict", ":ign"])) for _ in range(rng.choice([1, 2]))]
+        per = {}
+        for s in scopes:
+            if rng.random() < 0.3:
+                ex = gen_obj_exps(rng, 1)
+            else:
+                ex = old_to_x(gen_exps(rng, rng.choice([1, 1, 2, 3]), rng.choice([1, 2])))
+            if rng.random() < 0.08:
+                ex = []
+            per[s] = ex
+        order = list(scopes)
+        for rnd in range(3 if tier == "quick" else 6):
+            rng.shuffle(order)      # creation order of the scopes
+            etoks = interleave(rng, [[in_scope(s, expx_tok(e)) for e in per[s]] for s in order]) if rng.random() < 0.5 else \
+                [in_scope(s, expx_tok(e)) for s in order for e in per[s]]
+            calls = {s: matching_callsx(rng, per[s], shuffle=True)[:5] for s in scopes}
+            if rnd % 2:
+                for s in scopes:
+                    rng.shuffle(calls[s])
+            def emit(cl, tail=(":chk",)):
+                ctoks = interleave(rng, [[in_scope(s, callx_tok(c)) for c in cl[s]] for s in scopes])
+                out.append(join(cfg + etoks + ctoks + list(tail)))
+            emit(calls)
+            # exactly one scope deviates: each scope in turn with a dropped call, then random mutations
+            for s in scopes:
+                if calls[s]:
+                    cl = dict(calls)
+                    cl[s] = mutatex(rng, calls[s], "drop", rng.randrange(len(calls[s])))
+                    emit(cl)
+            for _ in range(3):
+                s = rng.choice(scopes)
+                cl = dict(calls)
+                cl[s] = mutatex(rng, calls[s], rng.choice(XMUT), rng.randrange(len(calls[s]) + 1))
+                emit(cl)
+            if ":ign" in " ".join(cfg):
+                s = rng.choice(scopes)
+                cl = dict(calls)
+                cl[s] = mutatex(rng, calls[s], "extra_unknown", rng.randrange(len(calls[s]) + 1))
+                emit(cl)
+        # non-canonical shapes
+        calls = {s: matching_callsx(rng, per[s], shuffle=False)[:4] for s in scopes}
+        etoks = [in_scope(s, expx_tok(e)) for s in scopes for e in per[s]]
+        ctoks = interleave(rng, [[in_scope(s, callx_tok(c)) for c in calls[s]] for s in scopes])
+        h = rng.randrange(len(ctoks) + 1)
+        s1 = rng.choice(scopes)
+        out.append(join(cfg + etoks + ctoks[:h] + [":left"] + ctoks[h:] + [":left", ":chk"]))
+        out.append(join(cfg + etoks + ctoks[:h] + [in_scope(s1, ":left"), in_scope(s1, ":chk")] + ctoks[h:] + [":chk"]))
+        out.append(join(cfg + etoks + ctoks[:h] + [in_scope(s1, ":clr")] + ctoks[h:] + [":chk"]))
+        out.append(join(cfg + etoks + ctoks[:h] + [":clr"] + etoks + ctoks + [":chk"]))
+        out.append(join(cfg + etoks + ctoks[:h] + [rng.choice([":dis", in_scope(s1, ":dis")])] + ctoks[h:] + [rng.choice([":en", in_scope(s1, ":en")]), ":left", ":chk"]))
+        out.append(join(cfg + etoks[:len(etoks) // 2] + [":dis"] + etoks[len(etoks) // 2:] + [":en"] + ctoks + [":chk"]))
+        out.append(join(etoks[:len(etoks) // 2] + cfg + etoks[len(etoks) // 2:] + ctoks[:h] + [rng.choice([":ign", ":strict"])] + ctoks[h:] + [":chk"]))
+        out.append(join(cfg + etoks + ctoks))
+
+
 def generate(tier, rng):
     out = []
-    nsets = 260 if tier == "quick" else 9000
+    nsets = 170 if tier == "quick" else 6000
     for k in range(nsets):
         stream = k % 10
         ign_p = 0.5 if stream == 7 else 0.0
@@ -187,6 +467,8 @@ def generate(tier, rng):
             j = rng.randrange(len(exps) + 1)
             out.append(join(pre + [exp_tok(e) for e in exps[:j]] + [call_tok(c) for c in inorder[:h]] + [":strict"] + [exp_tok(e) for e in exps[j:]] + [call_tok(c) for c in inorder[h:]] + [":chk"]))
             out.append(join([exp_tok(e) for e in exps] + [call_tok(c) for c in inorder]))   # no final check
+    gen_objects(rng, tier, out)
+    gen_scopes(rng, tier, out)
     return out
 
 
@@ -194,21 +476,124 @@ def toks(s):
     return s.split()
 
 
+OPS0 = (":chk", ":clr", ":strict", ":ign", ":en", ":dis", ":left")
+
+
+def read_value(t, i):
+    """value ::= :b x | :i ty z | :s $bytes | :p addr  -> (text, next index)"""
+    n = 3 if t[i] == ":i" else 2
+    return " ".join(t[i:i + n]), i + n
+
+
+def parse_ops(s):
+    """-> list of (scope, op) with op = ("E", count, f, inputs, outs, obj, ret, ign) | ("C", f, items, want) | (":chk",) ..."""
+    t = toks(s)
+    i = 0
+    ops = []
+    while i < len(t):
+        scope = 0
+        if t[i] == ":s":
+            scope = int(t[i + 1], 16)
+            i += 2
+        k = t[i]
+        i += 1
+        if k in OPS0:
+            ops.append((scope, (k,)))
+        elif k in (":e", ":E"):
+            n = int(t[i], 16)
+            f = int(t[i + 1], 16)
+            cnt = int(t[i + 2], 16)
+            i += 3
+            ps = []
+            for _ in range(cnt):
+                nm = int(t[i], 16)
+                v, i = read_value(t, i + 1)
+                ps.append((nm, v))
+            outs, obj = [], None
+            if k == ":E":
+                cnt = int(t[i], 16)
+                i += 1
+                for _ in range(cnt):
+                    outs.append((int(t[i], 16), bytes.fromhex(t[i + 1][1:])))
+                    i += 2
+                if t[i] != "~":
+                    obj = int(t[i], 16)
+                i += 1
+            ret = None
+            if t[i] == "~":
+                i += 1
+            else:
+                ret, i = read_value(t, i)
+            ign = t[i] != "0"
+            i += 1
+            ops.append((scope, ("E", n, f, ps, outs, obj, ret, ign)))
+        elif k in (":c", ":C"):
+            f = int(t[i], 16)
+            cnt = int(t[i + 1], 16)
+            i += 2
+            its = []
+            for _ in range(cnt):
+                if k == ":c":
+                    nm = int(t[i], 16)
+                    v, i = read_value(t, i + 1)
+                    its.append(("in", nm, v))
+                elif t[i] == ":in":
+                    nm = int(t[i + 1], 16)
+                    v, i = read_value(t, i + 2)
+                    its.append(("in", nm, v))
+                elif t[i] == ":out":
+                    its.append(("out", int(t[i + 1], 16), bytes.fromhex(t[i + 2][1:])))
+                    i += 3
+                else:
+                    its.append(("obj", int(t[i + 1], 16)))
+                    i += 2
+            want = t[i] != "0"
+            i += 1
+            ops.append((scope, ("C", f, its, want)))
+        else:
+            raise ValueError("op " + k)
+    return ops
+
+
+def emit_ops(ops):
+    out = []
+    for scope, o in ops:
+        if o[0] == "E":
+            tok = expx_tok(o[1:])
+        elif o[0] == "C":
+            tok = callx_tok(o[1:])
+        else:
+            tok = o[0]
+        out.append(in_scope(scope, tok))
+    return " ".join(out)
+
+
 def nontrivial(s):
-    return " :c " in " " + s and ":e " in s
+    t = toks(s)
+    return (":c" in t or ":C" in t) and (":e" in t or ":E" in t)
 
 
 def classify(s):
     t = toks(s)
     labs = ["strict" if ":strict" in t else "any-order"]
-    nc = t.count(":c")
+    nc = t.count(":c") + t.count(":C")
     labs.append("calls=%d" % min(nc, 8))
-    labs.append("exps=%d" % t.count(":e"))
+    labs.append("exps=%d" % min(t.count(":e") + t.count(":E"), 8))
+    scopes = set(sc for sc, _ in parse_ops(s))
+    labs.append("scopes=%d" % len(scopes))
+    if ":obj" in t:
+        labs.append("onObject")
+    if ":out" in t:
+        labs.append("outputs")
     if ":ign" in t:
         labs.append("ignoreOtherCalls")
     if ":clr" in t:
         labs.append("clear")
-    if t.count(":chk") != 1 or t[-1] != ":chk":
+    if ":left" in t:
+        labs.append("expectedCallsLeft")
+    if ":dis" in t:
+        labs.append("disable")
+    if t.count(":chk") != 1 or t[-1] != ":chk" or ":left" in t or ":dis" in t or ":en" in t:
         labs.append("non-canonical")
     return labs
 
@@ -216,39 +601,49 @@ def classify(s):
 def signature(s, o):
     ot = o.split()
     kind = "pass" if ot and ot[0] == "~" else (ot[1] if len(ot) > 1 else "?")
-    return "%s %s" % ("strict" if ":strict" in toks(s) else "any-order", kind)
-
-
-def split_ops(s):
     t = toks(s)
-    ops, cur = [], []
-    for x in t:
-        if x in (":e", ":c", ":chk", ":clr", ":strict", ":ign") and cur:
-            ops.append(cur)
-            cur = []
-        cur.append(x)
-    if cur:
-        ops.append(cur)
-    return ops
+    return "%s %s%s%s" % ("strict" if ":strict" in t else "any-order", kind, " scopes" if len(set(sc for sc, _ in parse_ops(s))) > 1 else "",
+                          " objects/outputs" if (":obj" in t or ":out" in t) else "")
 
 
 def shrink(s):
-    ops = split_ops(s)
+    ops = parse_ops(s)
     for i in range(len(ops)):
         if len(ops) > 1:
-            yield " ".join(" ".join(o) for o in ops[:i] + ops[i + 1:])
-    for i, o in enumerate(ops):
-        if o[0] == ":e" and o[1] not in ("0", "1"):
-            yield " ".join(" ".join(x) for x in ops[:i] + [[o[0], "1"] + o[2:]] + ops[i + 1:])
-        if o[0] == ":c" and o[-1] == "1":
-            yield " ".join(" ".join(x) for x in ops[:i] + [o[:-1] + ["0"]] + ops[i + 1:])
+            yield emit_ops(ops[:i] + ops[i + 1:])
+    for i, (sc, o) in enumerate(ops):
+        def rep(o2, sc2=sc):
+            return emit_ops(ops[:i] + [(sc2, o2)] + ops[i + 1:])
+        if o[0] == "E":
+            _, n, f, ps, outs, obj, ret, ign = o
+            if n > 1:
+                yield rep(("E", 1, f, ps, outs, obj, ret, ign))
+            for j in range(len(ps)):
+                yield rep(("E", n, f, ps[:j] + ps[j + 1:], outs, obj, ret, ign))
+            for j in range(len(outs)):
+                yield rep(("E", n, f, ps, outs[:j] + outs[j + 1:], obj, ret, ign))
+            if ret is not None:
+                yield rep(("E", n, f, ps, outs, obj, None, ign))
+        elif o[0] == "C":
+            _, f, its, want = o
+            for j in range(len(its)):
+                yield rep(("C", f, its[:j] + its[j + 1:], want))
+            if want:
+                yield rep(("C", f, its, False))
+    # all operations of one scope moved to mock()
+    for sc0 in sorted(set(sc for sc, _ in ops) - {0}):
+        yield emit_ops([(0 if sc == sc0 else sc, o) for sc, o in ops])
 
 
 LEVEL_TEXT = ("Machine-checked (Coq) theorems over an executable model of the mock matching machinery (expectation flags and counters, "
               "candidate pruning, call finalisation, end-of-test verdict, failure selection), tied to the real code by a differential run "
               "of the extracted model against mock() on generated scenarios (all permutations + one mutation per position), with the "
               "extracted model-free spec evaluated on the implementation's observations.")
-LEVEL_NOTE = ("Trusted: Coq kernel, extraction, harness and generators. Modelled not verified: the C++ itself. Core fragment only: no onObject, "
-              "output parameters, custom comparators, scopes, enable/disable, tracing.")
+LEVEL_NOTE = ("Trusted: Coq kernel, extraction, harness and generators. Modelled not verified: the C++ itself. Theorems cover canonical scenarios "
+              "(configuration, expectations, calls, final mock().checkExpectations()) over mock() and named scopes with input/output "
+              "parameters, onObject in any position and return values; the multiset/sequence verdict clause is proved modulo the per-scope "
+              "counting hypothesis verdict_agrees (checked on every generated scenario by the extracted spec). ignoreOtherParameters, "
+              "object-less expectations called on an object, intermediate check/clear/expectedCallsLeft, enable/disable: model = "
+              "implementation agreement only. Not modelled: custom comparators/copiers, tracing, nested scopes.")
 TECHNIQUE = "Coq proof over hand-written executable model + extracted-model/implementation correspondence check (differential, permutations + mutations)"
 READY = True
